@@ -76,12 +76,16 @@ def strip_final(f):
         return ("k", "true")
     return tuple(strip_final(x) if isinstance(x, tuple) else x for x in f)
 
+MAY_REJECT = "% (a diagnostic is an acceptable outcome for this program)\n"
+
 def _chunk(args):
     seed, texts, H = args
     n = 0
     fails = []
     for t in texts:
         c, bad = prefix_violations(t, H)
+        if t.startswith(MAY_REJECT):
+            bad = [b for b in bad if b.get("what") != "exception RuntimeError"]
         n += c
         for b in bad:
             b["text"] = t
@@ -128,6 +132,10 @@ def search(ctx, deep):
         use = r.choice(["#program always. c :- x, 'a.", "#program dynamic. { c } :- x, not 'b.", "#program always. :- x, a, 'a, ''a.",
                         "#program always. c :- not x, b."]).replace("x,", "x(1)," if "x(1..2)" in f else "x,").replace("not x,", "not x(2)," if "x(1..2)" in f else "not x,")
         texts.append(f + texts[i] + "\n" + use)
+    # externals declared over past atoms (a diagnostic is an acceptable outcome)
+    for part in ("always", "dynamic"):
+        for ext, val in (("'x", " [true]"), ("'x", ""), ("''x", " [true]"), ("_x", " [true]"), ("'x(1)", " [free]")):
+            texts.append(MAY_REJECT + "#program always. {{a}}. #program {}. #external {}.{} #program always. c :- {}.".format(part, ext, val, ext.replace("_", "'")))
     H = 3
     work = [(ctx.seed + j, c, H) for j, c in enumerate(par.chunks(texts, ctx.jobs * 2))]
     work += [(ctx.seed + j, c, 4) for j, c in enumerate(par.chunks(late_texts, ctx.jobs))]
